@@ -1,7 +1,7 @@
 """C08 part (b): in-flight bytes on the wire versus the congestion window."""
 from checks.wire_oracles import C08WireOracle
 from sim.goals import DeliveryGoal
-from sim.harness import run_transport
+from sim.harness import run_resumed, run_transport
 
 PROFILE = {"faults": ("drop", "dup", "delay", "blackout", "timer-late", "rebind"), "small_limits": 0.2, "big_cert_p": 0.3,
            "blackout_on_accept_p": 0.2, "retry_p": 0.15, "allow_vn": True,
@@ -21,3 +21,25 @@ def run_wire(seed, tier="quick", replay=None, variant="wire"):
         s["probes"]["window_limited_calls"] = o.n_limited
 
     return run_transport(seed, PROFILE, make, replay=replay, monitor=True, variant=variant, extra_summary=extra)
+
+
+RESUMED = {"faults": ("drop", "dup", "delay", "blackout", "timer-late"), "t_adv_max": 3.0, "max_ops": 6,
+           "datagram_sizes": (1200, 1252, 1350, 1400, 1472), "sizes": (1200, 6000, 20000, 66000)}
+
+
+def run_wire_resumed(seed, tier="quick", replay=None, variant="wire_resumed"):
+    """the restart fault: a resumed connection whose client fills its window with 0-RTT data before the
+    handshake finishes (coalesced Initial / Handshake / 1-RTT datagrams built under a nearly full window)"""
+    holder = {}
+
+    def make(mon):
+        holder["o"] = C08WireOracle()
+        return [holder["o"], DeliveryGoal()]
+
+    def extra(sim, s):
+        o = holder["o"]
+        s["extra"]["transmit_calls_judged"] = o.n_calls
+        s["probes"]["window_limited_calls"] = o.n_limited
+
+    early = [((13000, False), (9000, False), (20000, True), (300, False))[seed % 4]]
+    return run_resumed(seed, replay, dict(RESUMED), make, variant, early_writes=early, extra_summary=extra)
